@@ -163,6 +163,7 @@ def main():
     harness_errors = []
     discharged = 0
     unknown = []
+    not_encoded = []
     rep_dir = os.path.join(VERIF, "replays", pid)
     for ob in obs:
         rec = results[ob.name]
@@ -194,6 +195,8 @@ def main():
                 harness_errors.append((ob.name, "replay failed: %s" % rr.get("tag")))
         elif v == "UNKNOWN":
             unknown.append(ob.name)
+        elif v == "NOT-ENCODED":
+            not_encoded.append((ob.name, str(rec.get("detail", ""))[-600:]))
         else:
             harness_errors.append((ob.name, "%s: %s" % (v, str(rec.get("detail", ""))[-600:])))
 
@@ -212,6 +215,8 @@ def main():
         print("INCONCLUSIVE: property=%s obligation=%s %s" % (pid, name, why))
     for name in unknown:
         print("UNKNOWN: property=%s obligation=%s not decided within its budget (%s)" % (pid, name, results[name].get("detail", "")))
+    for name, why in not_encoded:
+        print("NOT-ENCODED: property=%s obligation=%s this part of the encoding could not be regenerated from the current source and decides nothing (%s)" % (pid, name, why))
     for c in canary_list:
         if c["result"] != "REFUTED":
             print("SENSITIVITY-WARNING: property=%s canary not killed (%s): %s" % (pid, c["result"], c["mutation"]))
@@ -245,6 +250,7 @@ def main():
             "refuted_and_replayed": [n for n, _, _ in violations],
             "known_findings_hit": [kf["id"] for _, kf, _ in known_hit],
             "inconclusive": [n for n, _ in inconclusive],
+            "not_encoded": [{"obligation": n, "reason": w} for n, w in not_encoded],
             "harness_errors": [n for n, _ in harness_errors],
             "checker_cmd": "./check %s --tier %s" % (pid, tier),
             "trusted_base": ["CPython 3.11 (python3-vt) / 3.12 (/venv) semantics", "CrossHair symbolic models of builtins"] + versions() + ["shims: " + "; ".join(["float model", "math.isclose transcription", "str %% split", "negative slice fix", "format() of symbolic numbers"]), "oracles under /verif/oracle"],
@@ -272,6 +278,9 @@ def main():
     if violations:
         sys.exit(1)
     if harness_errors:
+        sys.exit(3)
+    if obs and len(not_encoded) == len(obs):
+        print("HARNESS-ERROR: property=%s no part of the encoding could be regenerated from the current source" % pid)
         sys.exit(3)
     sys.exit(0)
 
